@@ -187,8 +187,120 @@ Proof.
   - f_equal. apply update_first_ext. intro x. apply map_children_ext. intro l0. rewrite IH. reflexivity.
 Qed.
 
-Lemma insert_group_ig : forall l g, insert_group l g = ig (group_key g) g l.
-Proof. intros. unfold insert_group, group_key. apply descend_ig. Qed.
+(** *** Where a group attaches.  The walk along the group's module path is exact;
+    the final match is modulo a leading "r#": the group attaches to the first
+    sibling whose name equals its raw name up to that prefix.  [attach_name] is
+    that sibling's spelling (the group's own spelling if there is none), computed
+    from the names in the forest only ([skel]). *)
+Inductive skel := SLeaf | SNode (r : str) (ch : list skel).
+Fixpoint skel_of (t : tree) : skel :=
+  match t with Leaf _ _ => SLeaf | Parent r _ ch => SNode r (map skel_of ch) end.
+
+Fixpoint attach_name (raw : str) (l : list skel) : str :=
+  match l with
+  | [] => raw
+  | SNode r _ :: tl => if str_eqb (strip_raw r) (strip_raw raw) then r else attach_name raw tl
+  | SLeaf :: tl => attach_name raw tl
+  end.
+
+Fixpoint skel_children (c : str) (l : list skel) : option (list skel) :=
+  match l with
+  | [] => None
+  | SNode r ch :: tl => if str_eqb r c then Some ch else skel_children c tl
+  | SLeaf :: tl => skel_children c tl
+  end.
+
+Fixpoint attach_last (comps : list str) (raw : str) (l : list skel) : str :=
+  match comps with
+  | [] => attach_name raw l
+  | c :: rest => match skel_children c l with Some ch => attach_last rest raw ch | None => raw end
+  end.
+
+Definition raw_key_s (sk : list skel) (g : group_entry) : list str :=
+  module_components (g_meta g) ++ [attach_last (module_components (g_meta g)) (m_raw (g_meta g)) sk].
+Definition raw_key (l : list tree) (g : group_entry) : list str := raw_key_s (map skel_of l) g.
+
+Lemma attach_name_strip : forall raw l, strip_raw (attach_name raw l) = strip_raw raw.
+Proof.
+  intros raw. induction l as [|[|r ch] tl IH]; cbn; [reflexivity|exact IH|].
+  destruct (str_eqb (strip_raw r) (strip_raw raw)) eqn:E; [apply str_eqb_spec in E; exact E|exact IH].
+Qed.
+
+Lemma update_first_raw_named : forall raw f l,
+  update_first (is_parent_named_raw raw) f l = update_first (is_parent_named (attach_name raw (map skel_of l))) f l.
+Proof.
+  intros raw f. induction l as [|x tl IH]; [reflexivity|]. cbn [map update_first].
+  destruct x as [r g ch|e a]; cbn [skel_of attach_name is_parent_named_raw is_parent_named].
+  - destruct (str_eqb (strip_raw r) (strip_raw raw)) eqn:E.
+    + rewrite str_eqb_refl. reflexivity.
+    + assert (Hn : str_eqb r (attach_name raw (map skel_of tl)) = false).
+      { destruct (str_eqb r (attach_name raw (map skel_of tl))) eqn:E2; [|reflexivity].
+        apply str_eqb_spec in E2. rewrite E2, attach_name_strip, str_eqb_refl in E. discriminate. }
+      rewrite Hn, IH. reflexivity.
+  - rewrite IH. reflexivity.
+Qed.
+
+Lemma update_first_children : forall m F1 F2 l,
+  (forall ch, skel_children m (map skel_of l) = Some (map skel_of ch) -> F1 ch = F2 ch) ->
+  update_first (is_parent_named m) (map_children F1) l = update_first (is_parent_named m) (map_children F2) l.
+Proof.
+  intros m F1 F2. induction l as [|x tl IH]; intro H; [reflexivity|]. cbn [update_first].
+  destruct x as [r g ch|e a]; cbn [is_parent_named].
+  - cbn [map skel_of skel_children] in H. destruct (str_eqb r m) eqn:E.
+    + cbn [map_children]. rewrite (H ch eq_refl). reflexivity.
+    + rewrite (IH H). reflexivity.
+  - cbn [map skel_of skel_children] in H. rewrite (IH H). reflexivity.
+Qed.
+
+Lemma descend_ig_raw : forall g raw comps l,
+  descend comps (fun t => or_same t (update_first (is_parent_named_raw raw) (set_group g) t)) l
+  = ig (comps ++ [attach_last comps raw (map skel_of l)]) g l.
+Proof.
+  intros g raw. induction comps as [|c rest IH]; intro l.
+  - cbn [descend app attach_last ig]. rewrite update_first_raw_named. reflexivity.
+  - cbn [descend app ig attach_last].
+    destruct (rest ++ [match skel_children c (map skel_of l) with
+                       | Some ch => attach_last rest raw ch
+                       | None => raw end]) as [|k key'] eqn:E; [destruct rest; discriminate|].
+    f_equal. apply update_first_children. intros ch Hch. rewrite IH. rewrite Hch in E. rewrite E. reflexivity.
+Qed.
+
+Lemma insert_group_ig : forall l g, insert_group l g = ig (raw_key l g) g l.
+Proof. intros. unfold insert_group, raw_key, raw_key_s. apply descend_ig_raw. Qed.
+
+(** Group insertion changes no name: the attachment key of any group is the same before and after. *)
+Lemma skel_update_first : forall p f l l',
+  (forall x, skel_of (f x) = skel_of x) -> update_first p f l = Some l' -> map skel_of l' = map skel_of l.
+Proof.
+  intros p f. induction l as [|x tl IH]; intros l' Hf H; cbn in H; [discriminate|].
+  destruct (p x).
+  - inversion H; subst. cbn. rewrite Hf. reflexivity.
+  - destruct (update_first p f tl) as [tl'|] eqn:E; [|discriminate]. inversion H; subst. cbn. rewrite (IH tl' Hf eq_refl). reflexivity.
+Qed.
+
+Lemma skel_ig : forall key g l, map skel_of (ig key g l) = map skel_of l.
+Proof.
+  induction key as [|k key' IH]; intros g l; [reflexivity|]. cbn [ig].
+  destruct (update_first _ _ l) as [l'|] eqn:E; cbn [or_same]; [|reflexivity].
+  eapply skel_update_first; [|exact E]. intros [r g0 ch|e a]; destruct key'; cbn [skel_of map_children set_group]; try reflexivity.
+  rewrite IH. reflexivity.
+Qed.
+
+Lemma raw_key_ig : forall key g l g', raw_key (ig key g l) g' = raw_key l g'.
+Proof. intros. unfold raw_key. rewrite skel_ig. reflexivity. Qed.
+
+(** The built tree: every group inserted at the key fixed by the names of the benches' tree. *)
+Definition attach_key (benches : list bench_entry) (groups : list group_entry) (g : group_entry) : list str :=
+  raw_key (from_benches (all_entries benches groups)) g.
+
+Lemma fold_insert_group_ig : forall groups T0 l,
+  map skel_of l = map skel_of T0 ->
+  fold_left insert_group groups l = fold_left (fun l g => ig (raw_key T0 g) g l) groups l.
+Proof.
+  induction groups as [|g gs IH]; intros T0 l H; [reflexivity|]. cbn [fold_left].
+  rewrite insert_group_ig. assert (E : raw_key l g = raw_key T0 g) by (unfold raw_key; rewrite H; reflexivity).
+  rewrite E. apply IH. rewrite skel_ig. exact H.
+Qed.
 
 Fixpoint upd (key : list str) (g : group_entry) (ch : chain) : chain :=
   match key, ch with
@@ -243,14 +355,15 @@ Proof.
     cbn [upd]. rewrite Hrk. reflexivity.
 Qed.
 
-Definition upd_all (groups : list group_entry) (ch : chain) : chain :=
-  fold_left (fun ch g => upd (group_key g) g ch) groups ch.
+(** [kf]: the key under which each group attaches. *)
+Definition upd_all (kf : group_entry -> list str) (groups : list group_entry) (ch : chain) : chain :=
+  fold_left (fun ch g => upd (kf g) g ch) groups ch.
 
-Lemma chain_of_fold_groups : forall groups rp l,
-  chain_of rp (fold_left insert_group groups l) = upd_all groups (chain_of rp l).
+Lemma chain_of_fold_groups : forall kf groups rp l,
+  chain_of rp (fold_left (fun l g => ig (kf g) g l) groups l) = upd_all kf groups (chain_of rp l).
 Proof.
-  induction groups as [|g gs IH]; intros rp l; [reflexivity|].
-  cbn [fold_left]. unfold upd_all. cbn [fold_left]. rewrite IH, insert_group_ig, chain_of_ig. reflexivity.
+  intros kf. induction groups as [|g gs IH]; intros rp l; [reflexivity|].
+  cbn [fold_left]. unfold upd_all. cbn [fold_left]. rewrite IH, chain_of_ig. reflexivity.
 Qed.
 
 (** ** Before group insertion all slots are empty *)
@@ -302,21 +415,24 @@ Proof.
 Qed.
 
 (** ** The chains of the final tree, by raw path alone *)
-Definition keyed_chain (groups : list group_entry) (rp : list str) : chain := upd_all groups (nones rp).
-Definition rekey (groups : list group_entry) (x : rleaf) : cleaf :=
-  (keyed_chain groups (fst (fst x)), snd (fst x), snd x).
+Definition keyed_chain (kf : group_entry -> list str) (groups : list group_entry) (rp : list str) : chain :=
+  upd_all kf groups (nones rp).
+Definition rekey (kf : group_entry -> list str) (groups : list group_entry) (x : rleaf) : cleaf :=
+  (keyed_chain kf groups (fst (fst x)), snd (fst x), snd x).
 
 Lemma build_tree_chains : forall benches groups x,
-  In x (flat_map leaves_rel (build_tree benches groups)) -> x = rekey groups (strip x).
+  In x (flat_map leaves_rel (build_tree benches groups)) -> x = rekey (attach_key benches groups) groups (strip x).
 Proof.
   intros benches groups x Hx.
   set (T0 := from_benches (all_entries benches groups)).
-  assert (HT : build_tree benches groups = fold_left insert_group groups T0) by reflexivity.
+  assert (HT0 : build_tree benches groups = fold_left insert_group groups T0) by reflexivity.
+  assert (HT : build_tree benches groups = fold_left (fun l g => ig (raw_key T0 g) g l) groups T0).
+  { rewrite HT0. apply fold_insert_group_ig. reflexivity. }
   pose proof (chain_of_leaves _ (modules_merged benches groups)) as HC. rewrite Forall_forall in HC.
   specialize (HC x Hx). rewrite HT in HC. rewrite chain_of_fold_groups in HC.
   (* the same raw leaf exists in T0, where all slots are empty *)
   assert (Hraw : In (strip x) (raw_leaves T0)).
-  { rewrite <- (raw_leaves_fold_groups groups T0). rewrite <- HT. rewrite <- strip_leaves. apply in_map. exact Hx. }
+  { rewrite <- (raw_leaves_fold_groups groups T0). rewrite <- HT0. rewrite <- strip_leaves. apply in_map. exact Hx. }
   rewrite <- strip_leaves in Hraw. apply in_map_iff in Hraw. destruct Hraw as [x0 [Hs Hx0]].
   pose proof (chain_of_leaves T0 (trie_from_benches _)) as HC0. rewrite Forall_forall in HC0. specialize (HC0 x0 Hx0).
   assert (HN : fst (fst x0) = nones (map fst (fst (fst x0)))).
@@ -325,11 +441,12 @@ Proof.
     pose proof (leaves_rel_no_groups t (Hng t Ht)) as HF. rewrite Forall_forall in HF. apply HF. exact Hx0. }
   assert (Hrp : map fst (fst (fst x0)) = map fst (fst (fst x))) by (unfold strip in Hs; congruence).
   rewrite Hrp in HC0, HN. rewrite HC0, HN in HC.
-  destruct x as [[ch e] a]. unfold rekey, strip, keyed_chain. cbn [fst snd] in *. rewrite HC. reflexivity.
+  destruct x as [[ch e] a]. unfold rekey, strip, keyed_chain, attach_key. fold T0. cbn [fst snd] in *. f_equal. f_equal. symmetry. exact HC.
 Qed.
 
 Lemma build_tree_leaves_rel : forall benches groups,
-  flat_map leaves_rel (build_tree benches groups) = map (rekey groups) (raw_leaves (build_tree benches groups)).
+  flat_map leaves_rel (build_tree benches groups)
+  = map (rekey (attach_key benches groups) groups) (raw_leaves (build_tree benches groups)).
 Proof.
   intros. rewrite <- strip_leaves, map_map.
   rewrite <- (map_id (flat_map leaves_rel (build_tree benches groups))) at 1.
@@ -337,8 +454,8 @@ Proof.
 Qed.
 
 (** What runs, said per entry: the entry's raw path decides names and options. *)
-Definition keyed_case (c : cfg) (groups : list group_entry) (e : any_entry) : list xcase :=
-  case_of c [] None (rekey groups (rleaf_of e)).
+Definition keyed_case (c : cfg) (kf : group_entry -> list str) (groups : list group_entry) (e : any_entry) : list xcase :=
+  case_of c [] None (rekey kf groups (rleaf_of e)).
 
 Lemma Permutation_flat_map_l : forall A B (f : A -> list B) l l',
   Permutation l l' -> Permutation (flat_map f l) (flat_map f l').
@@ -346,11 +463,12 @@ Proof. intros. apply Permutation_flat_map. assumption. Qed.
 
 Lemma exec_keyed : forall c benches groups,
   Permutation (exec_forest c [] None (build_tree benches groups))
-              (flat_map (keyed_case c groups) (all_entries benches groups)).
+              (flat_map (keyed_case c (attach_key benches groups) groups) (all_entries benches groups)).
 Proof.
   intros c benches groups. rewrite exec_forest_by_chains, build_tree_leaves_rel.
-  unfold keyed_case. rewrite <- (flat_map_map _ _ _ (case_of c [] None) (fun e => rekey groups (rleaf_of e))).
-  apply Permutation_flat_map_l. rewrite <- (map_map rleaf_of (rekey groups)). apply Permutation_map. apply tree_complete.
+  set (kf := attach_key benches groups).
+  unfold keyed_case. rewrite <- (flat_map_map _ _ _ (case_of c [] None) (fun e => rekey kf groups (rleaf_of e))).
+  apply Permutation_flat_map_l. rewrite <- (map_map rleaf_of (rekey kf groups)). apply Permutation_map. apply tree_complete.
 Qed.
 
 Lemma filter_perm : forall A (p : A -> bool) l l', Permutation l l' -> Permutation (filter p l) (filter p l').
@@ -364,7 +482,8 @@ Qed.
 
 Lemma exec_keyed_filtered : forall c benches groups,
   Permutation (exec_forest c [] None (retain (c_filter c) (build_tree benches groups)))
-              (filter (fun x => c_filter c (xpath x)) (flat_map (keyed_case c groups) (all_entries benches groups))).
+              (filter (fun x => c_filter c (xpath x))
+                      (flat_map (keyed_case c (attach_key benches groups) groups) (all_entries benches groups))).
 Proof.
   intros. rewrite exec_retain by apply wf_build_tree. apply filter_perm. apply exec_keyed.
 Qed.
@@ -401,15 +520,21 @@ Proof.
       apply eq_sym. apply upd_head_false. exact Eb.
 Qed.
 
-Lemma upd_all_perm : forall gs gs', Permutation gs gs' -> NoDup (map group_key gs) ->
-  forall ch, upd_all gs ch = upd_all gs' ch.
+Lemma upd_all_perm : forall kf gs gs', Permutation gs gs' -> NoDup (map kf gs) ->
+  forall ch, upd_all kf gs ch = upd_all kf gs' ch.
 Proof.
-  intros gs gs' H. induction H as [|x l l' Hp IH|x y l|l l' l'' H1 IH1 H2 IH2]; intros Hnd ch.
+  intros kf gs gs' H. induction H as [|x l l' Hp IH|x y l|l l' l'' H1 IH1 H2 IH2]; intros Hnd ch.
   - reflexivity.
   - unfold upd_all. cbn [fold_left]. cbn in Hnd. inversion Hnd; subst. apply IH. assumption.
   - unfold upd_all. cbn [fold_left]. f_equal. cbn in Hnd. inversion Hnd as [|? ? Hn _]; subst.
     apply upd_comm. intro E. apply Hn. left. exact E.
   - rewrite IH1 by exact Hnd. apply IH2. eapply Permutation_NoDup; [|exact Hnd]. apply Permutation_map. exact H1.
+Qed.
+
+Lemma upd_all_ext : forall kf kf' gs, (forall g, In g gs -> kf g = kf' g) -> forall ch, upd_all kf gs ch = upd_all kf' gs ch.
+Proof.
+  intros kf kf'. induction gs as [|g tl IH]; intros H ch; [reflexivity|]. unfold upd_all. cbn [fold_left].
+  rewrite (H g (or_introl eq_refl)). apply IH. intros x Hx. apply H. right. exact Hx.
 Qed.
 
 Lemma all_entries_perm : forall b b' g g',
@@ -418,18 +543,25 @@ Proof.
   intros. unfold all_entries. apply Permutation_app; [apply Permutation_map|apply Permutation_flat_map]; assumption.
 Qed.
 
+(** The attachment keys are those of the first tree; the second registry must attach its groups at the same keys
+    (it does when no two sibling modules differ only by a leading "r#"). *)
 Lemma order_independent : forall c benches groups benches' groups',
-  Permutation benches benches' -> Permutation groups groups' -> NoDup (map group_key groups) ->
+  Permutation benches benches' -> Permutation groups groups' ->
+  NoDup (map (attach_key benches groups) groups) ->
+  (forall g, In g groups -> attach_key benches' groups' g = attach_key benches groups g) ->
   Permutation (exec_forest c [] None (retain (c_filter c) (build_tree benches groups)))
               (exec_forest c [] None (retain (c_filter c) (build_tree benches' groups'))).
 Proof.
-  intros c b g b' g' Hb Hg Hnd.
+  intros c b g b' g' Hb Hg Hnd Hkf.
   eapply Permutation_trans; [apply exec_keyed_filtered|].
   eapply Permutation_trans; [|apply Permutation_sym; apply exec_keyed_filtered].
   apply filter_perm.
   eapply Permutation_trans; [apply Permutation_flat_map_l; apply (all_entries_perm _ _ _ _ Hb Hg)|].
-  assert (He : forall e, keyed_case c g e = keyed_case c g' e).
-  { intro e. unfold keyed_case, rekey, keyed_chain. rewrite (upd_all_perm g g' Hg Hnd). reflexivity. }
+  assert (He : forall e, keyed_case c (attach_key b g) g e = keyed_case c (attach_key b' g') g' e).
+  { intro e. unfold keyed_case, rekey, keyed_chain. rewrite (upd_all_perm _ g g' Hg Hnd).
+    rewrite (upd_all_ext (attach_key b g) (attach_key b' g') g').
+    - reflexivity.
+    - intros x Hx. symmetry. apply Hkf. apply (Permutation_in x (Permutation_sym Hg)). exact Hx. }
   rewrite (flat_map_ext _ _ He). apply Permutation_refl.
 Qed.
 
@@ -459,9 +591,9 @@ Definition cfg_all : cfg :=
 Lemma leaf_ignored_all : forall o, leaf_ignored cfg_all o = false.
 Proof. intros [[[[]|] sc]|]; reflexivity. Qed.
 
-Lemma keyed_case_all : forall groups e, map call_of (keyed_case cfg_all groups e) = entry_calls e.
+Lemma keyed_case_all : forall kf groups e, map call_of (keyed_case cfg_all kf groups e) = entry_calls e.
 Proof.
-  intros groups e. unfold keyed_case, case_of, entry_calls. rewrite leaf_ignored_all.
+  intros kf groups e. unfold keyed_case, case_of, entry_calls. rewrite leaf_ignored_all.
   unfold rleaf_of, rekey, leaf_args. cbn [fst snd]. destruct (entry_runner e) as [|o vals]; [reflexivity|].
   unfold index_list. apply (arg_cases_all e _ vals []).
 Qed.
@@ -477,7 +609,7 @@ Proof.
   intros benches groups.
   eapply Permutation_trans; [apply Permutation_map; apply exec_keyed_filtered|].
   rewrite filter_all by (intros; reflexivity).
-  rewrite map_flat_map. rewrite (flat_map_ext _ _ (keyed_case_all groups)). apply Permutation_refl.
+  rewrite map_flat_map. rewrite (flat_map_ext _ _ (keyed_case_all (attach_key benches groups) groups)). apply Permutation_refl.
 Qed.
 
 (** ** F8: a module and a generic function of the same name share a node.
